@@ -42,7 +42,9 @@ def aggTable : List (String × (Val × String × String)) :=
   [("sumCount", (.tup [.int 0, .int 0], "sumCountSeq", "sumCountComb")),
    ("appendExtend", (.lst [], "append", "extend")),
    ("addAdd", (.int 0, "add", "add")),
-   ("maxOpt", (.none, "maxOpt", "maxOpt"))]
+   ("maxOpt", (.none, "maxOpt", "maxOpt")),
+   ("tupMut", (.tup [.lst []], "tupAppend", "tupExtend")),
+   ("nestMut", (.lst [.lst [], .int 0], "nestAppend", "nestExtend"))]
 
 def handle (j : Json) : Json := run do
   let op ← getStr j "op"
